@@ -717,7 +717,7 @@ func TestPropfind(t *testing.T) {
 	if vev.ReplayFile() != "" {
 		t.Skip()
 	}
-	vev.Rapid(t, rec, 0, vev.N(4000, 300000), func(rt *rapid.T) {
+	vev.Rapid(t, rec, 0, vev.N(8000, 300000), func(rt *rapid.T) {
 		c := Case{Server: rapid.SampledFrom([]string{"webdav", "caldav", "caldav", "carddav", "carddav", "principal"}).Draw(rt, "server")}
 		switch c.Server {
 		case "webdav":
